@@ -480,8 +480,52 @@ fn mutation_strategy() -> impl Strategy<Value = BufCase> {
     })
 }
 
+
+// ------------------------------------------------------------------ the public size byte -> length function itself
+pub struct LengthFn;
+impl Part for LengthFn {
+    /// (compressed, size byte, buffered bytes)
+    type Case = (bool, u8, usize);
+    fn name(&self) -> &'static str {
+        "decode-length-function"
+    }
+    fn check(&self, c: &(bool, u8, usize), ev: &mut Local) -> Result<(), Fail> {
+        let mode = if c.0 { Mode::Compressed } else { Mode::Uncompressed };
+        let mut buf = bytes::BytesMut::with_capacity(c.2);
+        buf.resize(c.2, 0xA5);
+        if c.2 > 0 {
+            buf[0] = c.1;
+        }
+        let announced = if c.0 { c.1 as usize * 4 } else { c.1 as usize };
+        let r = guard(|| mode.decode_length(&buf)).map_err(|p| Fail::new("c04:decoder-panic", format!("decode_length(size byte {:#04x}, {} bytes buffered): {p}", c.1, c.2)))?;
+        let what = format!("{} mode, size byte {:#04x} (announces {announced}), {} bytes buffered", if c.0 { "compressed" } else { "uncompressed" }, c.1, c.2);
+        match r {
+            Ok(Some(n)) => {
+                ensure!(n == announced && n >= 4 && n <= c.2, "c04:frame-length-wrong", "{what}: decode_length says a frame of {n} bytes is ready");
+                ev.class("frame ready");
+            },
+            Ok(None) => {
+                ensure!(c.2 < 4 || (announced >= 4 && c.2 < announced), "c04:complete-frame-not-recognised", "{what}: decode_length asks for more data");
+                ev.class("needs more data");
+            },
+            Err(_) => {
+                ensure!(c.2 >= 4 && announced < 4, "c04:valid-size-byte-refused", "{what}: decode_length reports a framing error");
+                ev.class("framing error");
+            },
+        }
+        ev.nontrivial_distinct();
+        Ok(())
+    }
+    fn to_json(&self, c: &(bool, u8, usize)) -> Value {
+        json!({"compressed": c.0, "size_byte": c.1, "buffered": c.2})
+    }
+    fn from_json(&self, v: &Value) -> Option<(bool, u8, usize)> {
+        Some((v.get("compressed")?.as_bool()?, v.get("size_byte")?.as_u64()? as u8, v.get("buffered")?.as_u64()? as usize))
+    }
+}
+
 pub fn parts() -> Vec<Box<dyn DynPart>> {
-    vec![Box::new(RandomBytes), Box::new(Mutations), Box::new(HeaderPairs), Box::new(EnumPositions), Box::new(Regress), Box::new(DecodeLoop)]
+    vec![Box::new(RandomBytes), Box::new(Mutations), Box::new(HeaderPairs), Box::new(EnumPositions), Box::new(Regress), Box::new(DecodeLoop), Box::new(LengthFn)]
 }
 
 pub fn run(run: &mut Run) {
@@ -492,7 +536,7 @@ pub fn run(run: &mut Run) {
     run.rule = "Framing-model oracle on every buffer: no panic; fewer than the announced bytes (or < 4) buffered => Ok(None) with the buffer \
         byte-identical; announced length < 4 => framing error; otherwise Ok(packet)/decode error after removing exactly the announced bytes, \
         and the same frame alone yields the same result (never reads beyond the frame); peak allocation <= 64 KiB + 64 x input. Generators: \
-        random buffers with biased size bytes; all 256x256 (size,type) pairs x 3 tails x 2 modes (complete); bit flips / substitutions / \
+        Mode::decode_length for every size byte x buffered length 0..=1024 x 2 modes (complete); random buffers with biased size bytes; all 256x256 (size,type) pairs x 3 tails x 2 modes (complete); bit flips / substitutions / \
         truncations / extensions / splices of reference frames of all 73 kinds; every byte value in every enum-typed, count and identifier \
         position of every kind (complete); the receive loop (decode until 'need more') over concatenated mutated frames must consume >= 4 \
         bytes per step. Non-trivial = a complete announced frame was buffered (result is a packet or a decode error)."
@@ -503,6 +547,8 @@ pub fn run(run: &mut Run) {
     ];
     // (b)
     run.enumerate(&HeaderPairs, 512, true, |i| Some((i >= 256, (i % 256) as u8, None)));
+    // Mode::decode_length directly: every size byte x every buffered length 0..=1024, both modes (complete)
+    run.enumerate(&LengthFn, 2 * 256 * 1025, true, |i| Some((i >= 256 * 1025, ((i % (256 * 1025)) / 1025) as u8, (i % 1025) as usize)));
     // (d)
     let mut cases = vec![];
     for p in &spec().packets {
